@@ -1845,7 +1845,8 @@ def _warnctx_exit(interp, o, *a):
 
 
 def _op_path_rename(interp, obj, target):
-    interp.ctx.__dict__.setdefault("fs_log", []).append(("rename", obj, target))
+    from . import fsghost
+    fsghost.event(interp, "rename", obj, target=target)
     return target
 
 
@@ -1999,13 +2000,15 @@ _MODELS[sorted] = _sorted_sym
 def _path_rename(interp, path, target):
     """P-RENAME: recorded in the ghost file-system log (atomic on POSIX)"""
     axiom("P-RENAME (rename is atomic; recorded in the ghost file-system log)")
-    interp.ctx.__dict__.setdefault("fs_log", []).append(("rename", path, target))
+    from . import fsghost
+    fsghost.event(interp, "rename", path, target=target)
     return target
 
 
 @model(_pathlib.Path.unlink)
 def _path_unlink(interp, path, *a, **k):
-    interp.ctx.__dict__.setdefault("fs_log", []).append(("unlink", path))
+    from . import fsghost
+    fsghost.event(interp, "unlink", path)
     return None
 
 
@@ -2466,7 +2469,8 @@ class SIter(Sym):
 
 @model(_pathlib.Path.mkdir)
 def _path_mkdir(interp, path, *a, **k):
-    interp.ctx.__dict__.setdefault("fs_log", []).append(("mkdir", path))
+    from . import fsghost
+    fsghost.event(interp, "mkdir", path)
     return None
 
 
